@@ -216,6 +216,21 @@ pub fn boundary_values() -> Vec<V> {
 
 pub fn check_pair(c: &Pair) -> Outcome {
     let (Some(a), Some(b)) = (to_cel(&c.a), to_cel(&c.b)) else { return Outcome::Skip("not-representable-in-chrono") };
+    // "arbitrary values" includes values the host still observes: a second strong reference (a clone kept by the host)
+    // or a weak one to the operands' shared storage, in rotation
+    let observe = (format!("{:?}{:?}", c.a, c.b).bytes().fold(0u32, |h, x| h.wrapping_mul(31).wrapping_add(x as u32)) % 3) as u8;
+    let keep_strong = if observe == 1 { Some((a.clone(), b.clone())) } else { None };
+    let weak = |v: &cel_interpreter::Value| -> Option<Box<dyn std::any::Any>> {
+        use cel_interpreter::Value as CV;
+        match v {
+            CV::String(x) => Some(Box::new(std::sync::Arc::downgrade(x))),
+            CV::Bytes(x) => Some(Box::new(std::sync::Arc::downgrade(x))),
+            CV::List(x) => Some(Box::new(std::sync::Arc::downgrade(x))),
+            CV::Map(m) => Some(Box::new(std::sync::Arc::downgrade(&m.map))),
+            _ => None,
+        }
+    };
+    let keep_weak = if observe == 2 { (weak(&a), weak(&b)) } else { (None, None) };
     let r = guard(|| -> &'static str {
         match c.op {
             0 => match a + b {
@@ -251,6 +266,8 @@ pub fn check_pair(c: &Pair) -> Outcome {
             },
         }
     });
+    drop(keep_strong);
+    drop(keep_weak);
     match r {
         Err(p) => fail(format!("{:?} {} {:?} through the operator trait: {}", c.a, ["+", "-", "*", "/", "%", "==", "partial_cmp"][c.op as usize], c.b, p.short())),
         Ok(class) => {
@@ -386,6 +403,22 @@ pub fn run(r: &mut Runner) {
             }
         }
         r.sweep("builtins-on-boundary-values", cases, check_builtin);
+        // very long runs of prefix operators, very long chains and deep but legal nesting: compiled and executed
+        let mut long: Vec<Prog> = vec![];
+        for n in [100usize, 1_000, 4_000, 20_001, 60_000] {
+            long.push(Prog { expr: E::Raw(format!("{}true", "!".repeat(n))), ctx: vec![] });
+            long.push(Prog { expr: E::Raw(format!("{}1", "-".repeat(n))), ctx: vec![] });
+            long.push(Prog { expr: E::Raw(format!("{}x", "- ".repeat(n))), ctx: vec![("x".to_string(), V::Int(i64::MIN))] });
+            long.push(Prog { expr: E::Raw(format!("{}b", "! ".repeat(n + 1))), ctx: vec![("b".to_string(), V::Bool(false))] });
+        }
+        // (chains build trees as deep as they are long; 100 links stay well inside the 8 MiB stack envelope of DESIGN §1)
+        for n in [30usize, 100] {
+            long.push(Prog { expr: E::Raw(vec!["1"; n].join(" + ")), ctx: vec![] });
+            long.push(Prog { expr: E::Raw(vec!["true"; n].join(" && ")), ctx: vec![] });
+            long.push(Prog { expr: E::Raw(format!("x{}", ".a".repeat(n))), ctx: vec![("x".to_string(), V::Map(vec![]))] });
+            long.push(Prog { expr: E::Raw(format!("x{}", "[0]".repeat(n))), ctx: vec![("x".to_string(), V::List(vec![]))] });
+        }
+        r.sweep("very-long-runs-and-chains", long, check_prog);
     }
     let pool = Pool::c02();
     let np = r.tier.n(30_000, 1_000_000);
